@@ -90,6 +90,54 @@ Definition is_complex_kind (t : ty) : bool :=
   | _ => false
   end.
 
+(* ---------- one field of generateInitMethod, parameterised by defaultValueForType ---------- *)
+(* args: by IR field name; absent = the parameter is not passed *)
+Definition py_field_value (pctx : schemas) (default : ty -> option (list (string * dyn)) -> pres pval)
+           (args : list (string * pval)) (fld : field) : pres pval :=
+  let ft := f_type fld in
+  let d := dflt (ty_attrs ft) in
+  let arg := alist_find args (f_name fld) in
+  match ft with
+  | TConstRef _ cp cn cv =>
+      match locate_object pctx cp cn with
+      | Some o =>
+          match o_type o with
+          | TEnum _ vs =>
+              match find (fun ev => dyn_eqb (ev_value ev) cv) vs with
+              | Some ev => py_lit (ev_value ev)
+              | None => PSyntax "constant reference without a member"
+              end
+          | _ => PExc "NameError: unknown"
+          end
+      | None => PExc "NameError: unknown"
+      end
+  | _ =>
+      if is_concrete_scalar ft then
+        match ft with TScalar _ _ v _ => py_lit v | _ => PUnm "concrete scalar" end
+      else
+        let defv : option (pres pval) :=
+          if (negb (t_nullable ft) || negb (dyn_is_nil d))%bool then Some (default ft (ov_of d)) else None in
+        (* a default expression that is not needed is not evaluated (a literal that is not Python breaks
+           the IMPORT of the module: py_module_broken, decided on the constructors without arguments) *)
+        if is_complex_kind ft then
+          match arg with
+          | Some (PNone) | None =>
+              match defv with
+              | None => POk PNone
+              | Some r => r
+              end
+          | Some v => POk v
+          end
+        else
+          match arg with
+          | Some v => POk v
+          | None => match defv with None => POk PNone | Some r => r end
+          end
+  end.
+
+Definition mk_obj (p n : string) (fs : list field) (vs : list pval) : pval :=
+  PObj p n (combine (combine (map (@f_name ty) fs) (map (@f_required ty) fs)) vs).
+
 (* ---------- defaultValueForType + generateInitMethod ---------- *)
 Fixpoint py_default (pctx : schemas) (fuel : nat) (t : ty) (ov : option (list (string * dyn))) {struct fuel} : pres pval :=
   match fuel with
@@ -153,49 +201,7 @@ with py_init (pctx : schemas) (fuel : nat) (p n : string) (fs : list field) (arg
   match fuel with
   | O => PUnm "constructor nesting exceeds the fuel (reference cycle?)"
   | S f =>
-      let one := fun fld : field =>
-        let ft := f_type fld in
-        let d := dflt (ty_attrs ft) in
-        let arg := alist_find args (f_name fld) in
-        match ft with
-        | TConstRef _ cp cn cv =>
-            match locate_object pctx cp cn with
-            | Some o =>
-                match o_type o with
-                | TEnum _ vs =>
-                    match find (fun ev => dyn_eqb (ev_value ev) cv) vs with
-                    | Some ev => py_lit (ev_value ev)
-                    | None => PSyntax "constant reference without a member"
-                    end
-                | _ => PExc "NameError: unknown"
-                end
-            | None => PExc "NameError: unknown"
-            end
-        | _ =>
-            if is_concrete_scalar ft then
-              match ft with TScalar _ _ v _ => py_lit v | _ => PUnm "concrete scalar" end
-            else
-              let defv : option (pres pval) :=
-                if (negb (t_nullable ft) || negb (dyn_is_nil d))%bool then Some (py_default pctx f ft (ov_of d)) else None in
-              if is_complex_kind ft then
-                match arg with
-                | Some (PNone) | None =>
-                    match defv with
-                    | None => POk PNone
-                    | Some r => r
-                    end
-                | Some v =>
-                    (* the default expression is not evaluated; a literal that is not Python still breaks the import *)
-                    match defv with Some (PSyntax w) => PSyntax w | _ => POk v end
-                end
-              else
-                match arg with
-                | Some v => match defv with Some (PSyntax w) => PSyntax w | _ => POk v end
-                | None => match defv with None => POk PNone | Some r => r end
-                end
-        end in
-      pbind (pall (map one fs)) (fun vs =>
-        POk (PObj p n (combine (combine (map (@f_name ty) fs) (map (@f_required ty) fs)) vs)))
+      pbind (pall (map (py_field_value pctx (py_default pctx f) args) fs)) (fun vs => POk (mk_obj p n fs vs))
   end.
 
 Definition py_fuel (pctx : schemas) : nat := S (S (2 * count_objects pctx)).
@@ -251,6 +257,49 @@ Definition py_module_syntax_error (pctx : schemas) (p : string) : bool :=
 (* ---------- from_json ---------- *)
 Definition is_scalar_kind (t : ty) : bool := match t with TScalar _ _ _ _ => true | _ => false end.
 
+(* disjunctionFromJSON prints `typing.Union[<one entry per mapping key except the catch-all>]`: with a
+   discriminator but no such key the text is `typing.Union[]`, which is not Python (OpenAPI `discriminator`
+   without `mapping` gives a non-nil empty map when the mapping cannot be inferred) *)
+Definition disj_mapping_keys (dj : disj) : list string :=
+  filter (fun k => negb (seqb k catch_all)) (map fst (d_mapping dj)).
+Definition disj_uses_mapping (dj : disj) : bool :=
+  negb (seqb (d_disc dj) "" || match d_mapping dj with [] => true | _ => false end)%bool.
+Definition disj_empty_union (dj : disj) : bool :=
+  (negb (seqb (d_disc dj) "") && match disj_mapping_keys dj with [] => true | _ => false end)%bool.
+
+(* the type as fromJSONForType sees it: references to non-structs are resolved *)
+Definition view (pctx : schemas) (t : ty) : ty :=
+  match t with
+  | TRef _ _ _ => match resolve pctx t with Some rt => rt | None => TBad attrs0 "cycle" end
+  | _ => t
+  end.
+
+(* a map of maps of non-scalars: the two nested comprehensions both bind `key`, the element expression
+   data[..][key][key] reads the wrong entry (KeyError or another entry's value) *)
+Definition nested_maps (pctx : schemas) (t : ty) : bool :=
+  match view pctx t with
+  | TMap _ _ vt => match view pctx vt with
+                   | TMap _ _ vt' => negb (is_scalar_kind vt')
+                   | _ => false
+                   end
+  | _ => false
+  end.
+
+(* fromJSONForType reaches a disjunction printed as typing.Union[] (through arrays, maps and references to
+   non-structs; a reference to a struct is a call of that class's from_json) *)
+Fixpoint ty_empty_union (pctx : schemas) (fuel : nat) (t : ty) : bool :=
+  match fuel with
+  | O => false
+  | S f =>
+      match t, view pctx t with
+      | TRef _ _ _, TStruct _ _ _ => false
+      | _, TDisj _ dj => disj_empty_union dj
+      | _, TArray _ v => ty_empty_union pctx f v
+      | _, TMap _ _ v => ty_empty_union pctx f v
+      | _, _ => false
+      end
+  end.
+
 Definition pkg_of_branch (dj : disj) (dflt_pkg n : string) : string :=
   match find (fun b => match b with TRef _ _ n' => seqb n' n | _ => false end) (d_branches dj) with
   | Some (TRef _ p _) => p
@@ -264,39 +313,61 @@ Fixpoint pdict_set (l : list (string * pval)) (k : string) (v : pval) : list (st
   | (k', v') :: r => if seqb k' k then (k', v) :: r else (k', v') :: pdict_set r k v
   end.
 
+(* ----- <Class>.from_json: helpers, parameterised by the decoder of member values ----- *)
+Definition is_const_field (t : ty) : bool := (is_concrete_scalar t || is_constref t)%bool.
+Definition decoded_fields (sfs : list field) : list field := filter (fun fld => negb (is_const_field (f_type fld))) sfs.
+
+(* data[k] is the LAST member named k (json.loads); members that name no decoded field are ignored.
+   from_json_items decodes every member that names a decoded field; keep_last drops the entries a later
+   member with the same name overrides. *)
+Definition from_json_items (dec : ty -> json -> pres pval) (decoded : list field) (ms : list (string * json))
+  : list (string * option (pres (string * pval))) :=
+  map (fun kv => (fst kv,
+                  match field_by_name decoded (fst kv) with
+                  | Some fld => Some (pbind (dec (f_type fld) (snd kv)) (fun x => POk (fst kv, x)))
+                  | None => None
+                  end)) ms.
+
+Fixpoint keep_last {A} (l : list (string * option A)) : list A :=
+  match l with
+  | [] => []
+  | (k, o) :: r =>
+      match o with
+      | Some a => if str_in k (map fst r) then keep_last r else a :: keep_last r
+      | None => keep_last r
+      end
+  end.
+
+Definition from_json_args (dec : ty -> json -> pres pval) (decoded : list field) (ms : list (string * json))
+  : list (pres (string * pval)) := keep_last (from_json_items dec decoded ms).
+
+Definition class_from_json (pctx : schemas) (dec : string -> ty -> json -> pres pval) (p n : string) (sfs : list field)
+           (j : json) : pres pval :=
+  match decoded_fields sfs, j with
+  | [], _ => py_init pctx (py_fuel pctx) p n sfs []          (* `data` is never looked at *)
+  | _, JObj ms =>
+      pbind (pall (from_json_args (dec p) (decoded_fields sfs) ms)) (fun a => py_init pctx (py_fuel pctx) p n sfs a)
+  | _, JNull | _, JNum _ _ | _, JBool _ => PExc "TypeError: argument is not iterable"
+  | _, _ => PUnm "`in` on a string or a list"
+  end.
+
+(* the class the discriminator value selects in the generated decoding map *)
+Definition disj_target (dj : disj) (dv : json) : option string :=
+  match (match dv with JStr s => if seqb s catch_all then None else alist_find (d_mapping dj) s | _ => None end) with
+  | Some n => Some n
+  | None => alist_find (d_mapping dj) catch_all
+  end.
+
+Definition dict_of (kvs : list (string * pval)) : pval :=
+  PDict (fold_left (fun acc kv => pdict_set acc (fst kv) (snd kv)) kvs []).
+
 Fixpoint py_from_json (pctx : schemas) (cur_pkg : string) (t : ty) (j : json) {struct j} : pres pval :=
-  (* <Class>.from_json(j) for the struct object n of package p *)
-  let class_from_json := fun (p n : string) (sfs : list field) =>
-    let decoded := filter (fun fld => negb (is_concrete_scalar (f_type fld) || is_constref (f_type fld))%bool) sfs in
-    match decoded, j with
-    | [], _ => py_init pctx (py_fuel pctx) p n sfs []          (* `data` is never looked at *)
-    | _, JObj ms =>
-        (* data[k] is the LAST member named k (json.loads); members that name no decoded field are ignored *)
-        let args :=
-          (fix go (ms : list (string * json)) : list (pres (string * pval)) :=
-             match ms with
-             | [] => []
-             | (k, v) :: r =>
-                 match field_by_name decoded k with
-                 | Some fld =>
-                     if str_in k (map fst r) then go r
-                     else pbind (py_from_json pctx p (f_type fld) v) (fun x => POk (k, x)) :: go r
-                 | None => go r
-                 end
-             end) ms in
-        pbind (pall args) (fun a => py_init pctx (py_fuel pctx) p n sfs a)
-    | _, JNull | _, JNum _ _ | _, JBool _ => PExc "TypeError: argument is not iterable"
-    | _, _ => PUnm "`in` on a string or a list"
-    end in
-  let t' := match t with
-            | TRef _ _ _ => match resolve pctx t with Some rt => rt | None => TBad attrs0 "cycle" end
-            | _ => t
-            end in
-  match t, t' with
+  if nested_maps pctx t then PUnm "map of maps of non-scalars (shadowed comprehension variable)" else
+  match t, view pctx t with
   | TRef _ p n, TStruct _ _ sfs =>
       (* the class named by the reference; a reference to an alias of a struct is outside the model *)
       match struct_fields pctx p n with
-      | Some _ => class_from_json p n sfs
+      | Some _ => class_from_json pctx (py_from_json pctx) p n sfs j
       | None => PUnm "reference to an alias of a struct"
       end
   | _, TBad _ _ => PUnm "reference cycle or bad type"
@@ -312,22 +383,18 @@ Fixpoint py_from_json (pctx : schemas) (cur_pkg : string) (t : ty) (j : json) {s
       match j with
       | JObj ms =>
           pbind (pall (map (fun kv => pbind (py_from_json pctx cur_pkg vt (snd kv)) (fun x => POk (fst kv, x))) ms))
-                (fun kvs => POk (PDict (fold_left (fun acc kv => pdict_set acc (fst kv) (snd kv)) kvs [])))
+                (fun kvs => POk (dict_of kvs))
       | JNull | JNum _ _ | JBool _ | JStr _ | JArr _ => PExc "AttributeError: no keys()"
       end
   | _, TDisj _ dj =>
-      if (seqb (d_disc dj) "" || match d_mapping dj with [] => true | _ => false end)%bool then POk (praw j) else
+      if disj_empty_union dj then PSyntax "typing.Union[]" else
+      if negb (disj_uses_mapping dj) then POk (praw j) else
       match j with
       | JObj ms =>
           match last_member (d_disc dj) ms with
           | None => PExc "KeyError: discriminator"
           | Some dv =>
-              let target :=
-                match (match dv with JStr s => if seqb s catch_all then None else alist_find (d_mapping dj) s | _ => None end) with
-                | Some n => Some n
-                | None => alist_find (d_mapping dj) catch_all
-                end in
-              match target with
+              match disj_target dj dv with
               | None => match dv with
                         | JStr _ | JNum _ _ | JBool _ | JNull => PExc "KeyError: unknown discriminator"
                         | _ => PExc "TypeError: unhashable"
@@ -335,7 +402,7 @@ Fixpoint py_from_json (pctx : schemas) (cur_pkg : string) (t : ty) (j : json) {s
               | Some n =>
                   let p := pkg_of_branch dj cur_pkg n in
                   match struct_fields pctx p n with
-                  | Some sfs => class_from_json p n sfs
+                  | Some sfs => class_from_json pctx (py_from_json pctx) p n sfs j
                   | None => PUnm "mapping target is not a class"
                   end
               end
@@ -358,3 +425,14 @@ Definition py_roundtrip (pctx : schemas) (p n : string) (j : json) : pres json :
 
 Definition pres_tag {A} (r : pres A) : string :=
   match r with POk _ => "ok" | PExc _ => "exc" | PSyntax _ => "syntax" | PUnm _ => "unmodelled" end.
+
+(* the module of package p does not import: a default literal that is not Python, or typing.Union[] *)
+Definition py_module_broken (pctx : schemas) (p : string) : bool :=
+  (py_module_syntax_error pctx p ||
+   match locate pctx p with
+   | Some sc => existsb (fun ko => match o_type (snd ko) with
+                                   | TStruct _ _ fs => existsb (fun fld => (negb (is_const_field (f_type fld)) &&
+                                                                         ty_empty_union pctx 8 (f_type fld))%bool) fs
+                                   | _ => false end) (s_objects sc)
+   | None => false
+   end)%bool.
